@@ -128,4 +128,15 @@ Section Rc.
     end.
   Definition rc_solve (fuel : nat) (starts : list St) (samples : list St) : cst * option (list St * bool * option D) :=
     let s := rc_loop fuel (mkC (map (fun x => (x, None)) starts) [] true 0 None None) samples in (s, rc_report s).
+  (* further solve() calls without clear(): both trees, the alternation flag and the count of goal states taken are kept, the
+     solution and the approximate solution are local to a call *)
+  Definition rc_resume (fuel : nat) (s : cst) (samples : list St) : cst :=
+    rc_loop fuel (mkC (c_ts s) (c_tg s) (c_flag s) (c_gcount s) None None) samples.
+  Fixpoint rc_calls (fuel : nat) (s : cst) (calls : list (list St)) : cst * list (option (list St * bool * option D)) :=
+    match calls with
+    | [] => (s, [])
+    | smp :: rest => let s1 := rc_resume fuel s smp in let '(s2, reps) := rc_calls fuel s1 rest in (s2, rc_report s1 :: reps)
+    end.
+  Definition rc_solves (fuel : nat) (starts : list St) (calls : list (list St)) :=
+    rc_calls fuel (mkC (map (fun x => (x, None)) starts) [] true 0 None None) calls.
 End Rc.
